@@ -70,6 +70,14 @@ Theorem C20_schedule_irrelevant : forall completes fails decrypt sched1 sched2 s
 Proof. intros completes fails decrypt. exact (schedule_irrelevant tconn tin tout (tstep completes fails decrypt)). Qed.
 Print Assumptions C20_schedule_irrelevant.
 
+(* the gate state of a connection (handshake pending / established / released) is the one it would reach alone too *)
+Theorem C20_connection_state_independent : forall completes fails decrypt sched ss i s,
+  nth_error ss i = Some s ->
+  nth_error (istates tconn tin tout (tstep completes fails decrypt) ss sched) i =
+  Some (final tconn tin tout (tstep completes fails decrypt) s (ops_of tin i sched)).
+Proof. intros completes fails decrypt. exact (interleaving_state_independent tconn tin tout (tstep completes fails decrypt)). Qed.
+Print Assumptions C20_connection_state_independent.
+
 Theorem C20_premises_satisfiable :
   let completes := fun a => beq a (B "abc") in
   let fails := fun a => negb (is_prefix a (B "abc")) && negb (is_prefix (B "abc") a) in
